@@ -6,6 +6,8 @@ import TomlVerif.Driver.Stack
 import TomlVerif.Driver.C15
 import TomlVerif.Driver.C04
 import TomlVerif.Driver.C18
+import TomlVerif.Driver.C20
+import TomlVerif.Driver.C03
 
 open TomlVerif
 
@@ -20,6 +22,10 @@ def dispatch (mode : String) (line : String) : String :=
   | "c15" => Driver.c15 line
   | "c04" => Driver.c04 line
   | "c18" => Driver.c18 line
+  | "c20" => Driver.c20 line
+  | "c03" => Driver.c03 line
+  | "c14" => Driver.c14 line
+  | "cstsem" => Driver.cstSem line
   | _ => "bad-mode"
 
 partial def loop (mode : String) (h : IO.FS.Stream) (out : IO.FS.Stream) : IO Unit := do
